@@ -372,7 +372,7 @@ class TreeDiff(vlib.Differential):
             p = parse(case)
         except Exception:
             return case
-        budget = 300
+        budget = 150
         improved = True
         while improved and budget > 0:
             improved = False
@@ -464,37 +464,61 @@ def lex_source(cases):
     return ''.join(out)
 
 
-class Lexical:
-    """run_impl for the generated-source harness: compiles the batch it is handed"""
+class Impl:
+    """run_impl of both harnesses: canonical transcripts; a TIMEOUT seen with the short per-case
+    watchdog is believed only after the case timed out again on its own with a long one (a loaded
+    machine must not raise an alarm); after three confirmed hangs the short watchdog is trusted"""
+    confirmed = 0
 
-    def __init__(self, ctx):
-        self.ctx = ctx
+    def __init__(self, ctx, exe=None):
+        self.ctx, self.exe = ctx, exe
         self.n = 0
         self.compiled = 0
 
-    def __call__(self, cases):
+    def build(self, cases):
+        """lexical harness: compile the batch it is handed"""
         ctx = self.ctx
         self.n += 1
         src = os.path.join(ctx.tmp, 'exn_lex_%d.c' % self.n)
         with open(src, 'w') as fh:
             fh.write(lex_source(cases))
-        exe = ctx.build_harness(src, name='exn_lex_%d' % self.n, whitebox='Exception')
         self.compiled += len(cases)
-        rc, lines, err = ctx.run_lines(exe, [str(i) for i in range(len(cases))])
-        try:
-            os.remove(exe)
-        except OSError:
-            pass
+        return ctx.build_harness(src, name='exn_lex_%d' % self.n, whitebox='Exception')
+
+    def raw(self, exe, inputs, watchdog):
+        env = dict(os.environ, H_TIMEOUT=str(watchdog))
+        rc, lines, err = self.ctx.run_lines(exe, inputs, env=env, timeout=1200)
+        return lines
+
+    def __call__(self, cases):
+        exe = self.exe or self.build(cases)
+        inputs = cases if self.exe else [str(i) for i in range(len(cases))]
+        lines = self.raw(exe, inputs, 2)
+        lines += ['RAW[harness stopped]'] * (len(cases) - len(lines))
+        for k, l in enumerate(lines):
+            if l.endswith('| TIMEOUT') and Impl.confirmed < 3:
+                l2 = self.raw(exe, [inputs[k]], 15)
+                lines[k] = l2[0] if l2 else l
+                if lines[k].endswith('| TIMEOUT'):
+                    Impl.confirmed += 1
+        if not self.exe:
+            try:
+                os.remove(exe)
+            except OSError:
+                pass
         return [canon(l) for l in lines]
 
 
 # ----------------------------------------------------------------------------- the check
-def read_max_depth():
+def read_generated():
+    """(exc_max_depth, clear_active_on_catch or None) as written into coq/Generated.v by this run"""
     try:
         s = open(os.path.join(vlib.COQ, 'Generated.v')).read()
-        return int(re.search(r'Definition exc_max_depth : nat := (\d+)', s).group(1))
-    except Exception:
-        return 2048
+    except OSError:
+        s = ''
+    m = re.search(r'Definition exc_max_depth : nat := (\d+)', s)
+    c = re.search(r'Definition clear_active_on_catch : bool := (true|false)', s)
+    return (int(m.group(1)) if m else 2048), (None if not c else c.group(1) == 'true')
 
 
 def nest_case(n, inner, filt=''):
@@ -542,13 +566,20 @@ def run(ctx):
                         'Generated.v: clear_active_on_catch, exc_max_depth, normalised token strings of the macros try/catch/catch_in/throw '
                         'and of the six C functions the machine models']
     ok = ctx.coq()
+    mx, clr = read_generated()
     drv = ctx.build_driver('Exn')
     h = ctx.build_harness('exn_interp.c', whitebox='Exception')
-    run_impl = lambda cs: [canon(l) for l in ctx.run_lines(h, cs)[1]]
-    run_model = lambda cs: ctx.run_lines(drv, cs, args=['model'])[1]
     run_spec = lambda cs: ctx.run_lines(drv, cs, args=['spec'])[1]
-    d = TreeDiff(ctx, 'exn_interp', run_impl, run_model, run_spec, oracle, corr, nontrivial)
-    lex = Lexical(ctx)
+    if clr is None:
+        # the source no longer tells whether exception_catch clears `active` (pattern failure, already a
+        # broken obligation): only the specification is compared
+        run_model = None
+        ctx.notes.append('clear_active_on_catch missing from Generated.v: implementation compared with the specification only')
+    else:
+        run_model = lambda cs: ctx.run_lines(drv, cs, args=['model1' if clr else 'model0'])[1]
+    ctx.cov['machine_variant'] = {'clear_active_on_catch': clr, 'exc_max_depth': mx}
+    d = TreeDiff(ctx, 'exn_interp', Impl(ctx, h), run_model, run_spec, oracle, corr, nontrivial)
+    lex = Impl(ctx)
     dl = TreeDiff(ctx, 'exn_lexical', lex, run_model, run_spec, oracle, corr, nontrivial)
     g = Gen(ctx.rng)
 
@@ -562,13 +593,21 @@ def run(ctx):
         dd.report()
         return
 
-    mx = read_max_depth()
+    def feed(dd, cases, chunk):
+        """in chunks; once a harness has 25 failing cases the rest of its stream is skipped (a broken
+        library can make every other case hang until the watchdog)"""
+        for i in range(0, len(cases), chunk):
+            if len(dd.oracle_fail) + len(dd.corr_fail) >= 25:
+                ctx.notes.append('%s: stream cut after %d cases (25 failing cases collected)' % (dd.name, dd.ncases))
+                return
+            dd.feed(cases[i:i + chunk])
+
     bound = [nest_case(mx, '!1,5', ''),                 # exactly the bound: in scope
              ' '.join(['T0'] * (mx - 1) + ['T1'] + ['!1,5'] + ['t1'] + ['t2'] * (mx - 1)),   # caught by the innermost of mx blocks
              nest_case(mx + 1, 't1', '')]               # one more: overflow abort (model only; spec: out of scope)
-    d.feed(CORPUS, 'corpus')
-    d.feed(bound, 'bound')
-    dl.feed(CORPUS, 'corpus')
+    feed(d, CORPUS, 100)
+    feed(d, bound, 10)
+    feed(dl, CORPUS, 100)
     hist = {}
 
     n = 3000 if quick else 200000
@@ -577,27 +616,24 @@ def run(ctx):
         cases.append(g.case(25 if i % 4 else 9))
     ndeep = 60 if quick else 1500
     cases += [g.deep(ctx.rng.choice([30, 33, 40, 64, 100, 200])) for _ in range(ndeep)]
-    for i in range(0, len(cases), 5000):
-        d.feed(cases[i:i + 5000])
+    feed(d, cases, 250 if quick else 5000)
     for c in cases:
         s = size(parse(c)); b = 'nodes<=8' if s <= 8 else 'nodes<=16' if s <= 16 else 'nodes<=25' if s <= 25 else 'nodes>25'
         hist[b] = hist.get(b, 0) + 1
     # lexical nesting: the same generator, compiled
     nlex = 300 if quick else 6000
     lexcases = [g.case(25 if i % 3 else 10) for i in range(nlex)] + [g.deep(30) for _ in range(3 if quick else 40)]
-    for i in range(0, len(lexcases), 400):
-        dl.feed(lexcases[i:i + 400])
+    feed(dl, lexcases, 101 if quick else 400)
     ctx.cov['size_histogram'] = hist
     ctx.cov['lexical_programs_compiled'] = lex.compiled
     if not quick:
         mn = int(os.environ.get('C07_EXH_NODES', '7'))
         ex = list(enumerate_trees(mn, 2))
-        for i in range(0, len(ex), 20000):
-            d.feed(ex[i:i + 20000])
+        feed(d, ex, 20000)
         ctx.cov['exhaustive'] = {'what': 'every tree with <= %d nodes (skip, tick, throw, seq, try) over 2 kinds and all 4 filter subsets' % mn,
                                  'trees': len(ex), 'bounded_search_only': True}
 
     def extra(dd):
-        dd.feed([g.case(12) for _ in range(10 * min(n, 3000))])
+        feed(dd, [g.case(12) for _ in range(10 * min(n, 3000))], 500)
     d.report(extra)
     dl.report(None)
